@@ -64,6 +64,7 @@ def families_for(tier):
         "del": [A.Layout(A.layout_name(s, w, w // 2)) for (s, w) in A.FAMILIES] if tier == "quick"
         else plan.layouts_for("quick"),
         "alg": [l for l in plan.layouts_for(tier) if l.width == 128],
+        "serde": plan.layouts_for("quick"),
     }
 
 
@@ -105,6 +106,9 @@ def gen_pairs(api, tier, fams):
         elif fam == "alg":
             for l in lay["alg"]:
                 out += sp.alg(l)
+        elif fam == "serde":
+            for l in lay["serde"]:
+                out += sp.serde(l)
         elif fam == "cmpx":
             names = ["I8F0", "I4F4", "U8F8", "I16F16", "U0F32", "I32F32", "U64F0", "I64F64", "I0F128", "U64F64"]
             if tier == "thorough":
@@ -140,9 +144,13 @@ def crates_for(fam, pairs):
             a, b = eq_specs.pair_code(k, p)
             roots.append(G.Root(sym="a__%d" % k, layout=p.layout, group="eq", api=p.oid, cls="E", kind="eq", code=a))
             roots.append(G.Root(sym="b__%d" % k, layout=p.layout, group="eq", api=p.oid, cls="E", kind="eq", code=b))
-        cr = B.Crate("h_eq_%s_%d" % (fam, i), roots, extra_code=eq_specs.HEADER_EXTRA)
+        cr = B.Crate("h_eq_%s_%d" % (fam, i), roots,
+                     extra_code=eq_specs.HEADER_EXTRA + (eq_specs.SERDE_EXTRA if fam == "serde" else ""))
         cr.pairs = chunk
         cr.deps = 'codec = { package = "parity-scale-codec", version = "3", default-features = false }\n'
+        if fam == "serde":
+            cr.deps += 'serde = { version = "1", default-features = false }\n'
+            cr.features = ["serde"]
         crates.append(cr)
     return crates
 
@@ -291,4 +299,4 @@ def run(report, tier, fams, label, select=None):
 
 def prime(tier):
     ctx = run_a.context(tier)
-    results(ctx["api"], tier, ["wrap", "pol", "mask", "rem", "div", "codec", "cmp", "cmpx", "del", "conv", "alg"])
+    results(ctx["api"], tier, ["wrap", "pol", "mask", "rem", "div", "codec", "cmp", "cmpx", "del", "conv", "alg", "serde"])
